@@ -154,6 +154,30 @@ Theorem C17_status_numbering : forall p l,
 Proof. exact status_numbering. Qed.
 Print Assumptions C17_status_numbering.
 
+(* default status filters always name values of the status enum (after fix 705ef70) *)
+Theorem C17_default_filters_are_statuses : forall e fl f,
+  default_filters e (requested_filters e) = Some fl -> In f fl ->
+  In f (map fst (status_values (status_prefix e) (e_status e))).
+Proof. exact default_filters_are_enum_values. Qed.
+Print Assumptions C17_default_filters_are_statuses.
+
+(* the second observable: what the real j5client derives (one StateEntity) agrees with
+   the descriptors: same entity name, State schema, primary keys in declaration order,
+   one event per declared event, the command services, the query service and its paths *)
+Theorem C17_client_view : forall e fl,
+  let c := client_view e in
+  ce_name c = snake_name e
+  /\ ce_schema c = e_pkg e ++ [46] ++ m_name (state_msg e fl)
+  /\ ce_primary_key c = map uf_name (primary_keys e)
+  /\ ce_events c = map f_json (m_fields (event_type_msg e))
+  /\ length (ce_events c) = length (e_events e)
+  /\ map fst (ce_commands c) = map (fun cmd => command_service_name e cmd ++ bs "Service") (e_commands e)
+  /\ ce_query c = query_prefix e ++ bs "QueryService"
+  /\ map (fun m => http_rule_path (snd m)) (ce_query_methods c) = query_paths e
+  /\ map fst (ce_query_methods c) = [query_prefix e ++ bs "Get"; query_prefix e ++ bs "List"; query_prefix e ++ bs "Events"].
+Proof. exact client_view_consistent. Qed.
+Print Assumptions C17_client_view.
+
 (* the documented names (README: FooKeys, FooQueryService, FooPublishTopic) for
    UpperCamel entity names *)
 Theorem C17_names_upper_camel : forall e,
